@@ -6,6 +6,7 @@ import NgoVerif.Proofs.StrongEq
 import NgoVerif.Proofs.C08impl
 import NgoVerif.Proofs.C08anon
 import NgoVerif.Proofs.C08anonStm
+import NgoVerif.Proofs.C08anonObj
 import NgoVerif.Proofs.C10multi
 /-!
 # C08 — cleanup deletes only literals and rules that cannot matter
@@ -264,6 +265,18 @@ theorem C08_remove_weaker_copy_in_condition (P : Sem.Params) (A : CondAnon) (l c
    fun s ln cl lg rg f epre epost ts hc =>
     Proofs.C10stm.models_swap P _ _ (fun H T => bagg_stmSat P A l c h pre post s ln cl lg rg f epre epost ts cfull hsame hc H T)
       ctxPre ctxPost⟩
+
+
+open Proofs.C08anonObj in
+/-- **in an objective**: `:~ …, p(s̄), p(t̄), … . [w@p,t̄']` and the statement without the weaker copy `p(t̄)` contribute the
+same ground cost tuples in EVERY total interpretation (so the cost of every answer set is kept, C02), from the executable
+`objCheck` -/
+theorem C08_weaker_copy_in_objective_costs (P : Sem.PParams) (A : ObjAnon) (bb : List BLit)
+    (hsame : Proofs.C08impl.sameLits bb (A.qLit :: A.body) = true) (h : objCheck A = true) (T : Sem.Interp)
+    (tup : Sym × Sym × List Sym) :
+    Sem.costTuples P T (.minimize A.line A.col A.weight A.prio A.terms bb) tup ↔ Sem.costTuples P T A.res tup :=
+  (costTuples_same_body P A.line A.col A.line A.col A.weight A.prio A.terms bb (A.qLit :: A.body)
+    (Proofs.C08impl.sameLits_sound _ _ hsame) T tup).trans (obj_costs_of_check P A h T tup)
 
 /-! non-vacuity: `ok(X) :- d(X), 1 <= #sum { 1,Y : b(X,Y), b(X,_) }.` -/
 namespace C08condEx
